@@ -1,4 +1,4 @@
-ser_coll!(TransactionBody, TransactionWitnessSet, AuxiliaryData, Address, ScriptRef, DataHash, PlutusData, BigNum, CborContainerType);
+ser_coll!(TransactionBody, TransactionWitnessSet, AuxiliaryData, Address, ScriptRef, DataHash, PlutusData, BigNum);
 pub type Coin = BigNum;
 impl Clone for DataHash { #[verifier::external_body] fn clone(&self) -> (r: Self) ensures r == *self { unimplemented!() } }
 /// the multi-asset part of a Value (encoder in unit ser_assets); `nonempty()` = has at least one policy with at least one asset
